@@ -205,6 +205,22 @@ type conv struct {
 	f      func(v any) any
 }
 
+// preps turns the simple tree into the input the copying operation really receives (a gen
+// tree for the gen copies); the no-shared-state check is between that input and the copy.
+var preps = map[string]func(v any) any{
+	"gen.Node.Dup(gen input)":      genOf,
+	"alt.Dup(gen input)":           genOf,
+	"gen.Node.Simplify(gen input)": genOf,
+}
+
+func genOf(v any) any {
+	g := alt.Generify(v, keepAll)
+	if g == nil {
+		return nil
+	}
+	return g
+}
+
 var convs = []conv{
 	{"alt.Generify->Simplify", true, func(v any) any {
 		g := alt.Generify(v, keepAll)
@@ -228,6 +244,19 @@ var convs = []conv{
 		return g.Dup()
 	}},
 	{"alt.Dup", true, func(v any) any { return alt.Dup(v, keepAll) }},
+	{"gen.Node.Dup(gen input)", true, func(v any) any {
+		if n, ok := v.(gen.Node); ok {
+			return n.Dup()
+		}
+		return nil
+	}},
+	{"alt.Dup(gen input)", true, func(v any) any { return alt.Dup(v, keepAll) }},
+	{"gen.Node.Simplify(gen input)", true, func(v any) any {
+		if n, ok := v.(gen.Node); ok {
+			return n.Simplify()
+		}
+		return nil
+	}},
 	{"alt.Decompose", true, func(v any) any { return alt.Decompose(v, keepAll) }},
 	{"alt.GenAlter->Alter", false, func(v any) any {
 		d := canon.Copy(v)
@@ -257,7 +286,11 @@ func Run(cs Case, c *vrt.Ctx) {
 	c.Sample(map[string]any{"tree": before, "muts": cs.Muts, "on_origin": cs.OnOrigin})
 	for _, cv := range convs {
 		var out any
-		pv, stack := vrt.Catch(func() { out = cv.f(tree) })
+		in := tree
+		if prep := preps[cv.name]; prep != nil {
+			in = prep(tree)
+		}
+		pv, stack := vrt.Catch(func() { out = cv.f(in) })
 		if pv != nil {
 			c.Fail("panic", cv.name, fmt.Sprintf("%v at %s on %s", pv, stack, clip(before)))
 			continue
@@ -276,6 +309,9 @@ func Run(cs Case, c *vrt.Ctx) {
 		}
 		// no shared mutable state: mutate one side, the other must not change
 		orig := wx.Dec(cs.Tree)
+		if prep := preps[cv.name]; prep != nil {
+			orig = prep(orig)
+		}
 		var cp any
 		if pv, _ := vrt.Catch(func() { cp = cv.f(orig) }); pv != nil {
 			continue
